@@ -34,6 +34,8 @@ var c19Kinds = []string{"plain", "filters", "cors", "options", "encoding"}
 
 type c19Ent struct{ A string }
 
+const c19Patch = "application/json-patch+json"
+
 func sortedKV(m map[string]string) string {
 	var s []string
 	for k, v := range m {
@@ -166,6 +168,21 @@ func c19Build(cfg c19Cfg) *restful.Container {
 	ws3 := new(restful.WebService).Path("/t/{tenant}")
 	ws3.Route(ws3.GET("/items/{id}").If(cond).To(echo("tenant-item")))
 	c.Add(ws3)
+	// a custom entity writer whose media type contains the name of a built-in one
+	restful.RegisterEntityAccessor(c19Patch, restful.NewEntityAccessorJSON(c19Patch))
+	ws.Route(ws.GET("/patch").Produces(c19Patch).To(func(req *restful.Request, resp *restful.Response) {
+		pt("handler.enter")
+		resp.WriteEntity(c19Ent{"patch who=" + fmt.Sprint(req.Attribute("who"))})
+	}))
+	// media type lists that share their backing arrays, the way an application that keeps its
+	// types in one slice declares them: the service default, a route that overrides it with a
+	// shorter re-slice, a sibling on the same path and method with another type, a route that inherits
+	types := []string{restful.MIME_JSON, restful.MIME_XML}
+	ws4 := new(restful.WebService).Path("/n").Produces(types...)
+	ws4.Route(ws4.GET("/doc").Produces(types[:1]...).To(echo("doc-json")))
+	ws4.Route(ws4.GET("/doc").Produces("text/csv").To(echo("doc-csv")))
+	ws4.Route(ws4.GET("/inherit").To(echo("inherit")))
+	c.Add(ws4)
 	// a plain http.Handler behind the container filters
 	c.HandleWithFilter("/hwf/", http.HandlerFunc(func(w http.ResponseWriter, r *http.Request) {
 		pt("plain.handler")
@@ -205,6 +222,10 @@ func c19Q() []h.Req {
 		// depend on trace logging or on other requests
 		{Method: "GET", Segs: []string{"api", "ent"}, Hdr: [][2]string{{"X-Who", "rae"}, {"Accept", "application/xml;q=high, application/json;q=0"}}},
 		{Method: "GET", Segs: []string{"api", "verb", "7:stop"}, Hdr: [][2]string{{"X-Who", "sam"}}},
+		// the custom entity type; a request no sibling route can satisfy (406); a route that inherits the service's types
+		{Method: "GET", Segs: []string{"api", "patch"}, Hdr: [][2]string{{"X-Who", "tia"}, {"Accept", c19Patch}}},
+		{Method: "GET", Segs: []string{"n", "doc"}, Hdr: [][2]string{{"X-Who", "uma"}, {"Accept", "text/plain"}}},
+		{Method: "GET", Segs: []string{"n", "inherit"}, Hdr: [][2]string{{"X-Who", "val"}, {"Accept", "application/xml"}}},
 	}
 }
 
@@ -493,7 +514,7 @@ func checkC19(run *h.Run) {
 	run.Cov["distinct_nontrivial"] = states
 	run.Cov["distinct_outcomes"] = outcomes.Len()
 	run.Cov["exhaustive"] = true
-	run.Cov["rule"] = fmt.Sprintf("E2: configurations {plain, 3 container + service + route filters, CORS with computed methods, OPTIONS filter, encoding with bounded(1) provider} x {CurlyRouter, RouterJSR311} x entry {Dispatch, ServeHTTP} x trace {off, on}: every sequence over the request set Q (%d requests: two GETs on one template, POST entity, 404, 405, CORS preflight, a handler that dispatches a nested request, a second template with other methods incl. its preflight and 405, a second service, a plain handler behind HandleWithFilter, an entity negotiated between XML and JSON under two Accept headers that differ only in letter case and once as XML, routes with a regular-expression variable, two custom verbs and a tail wildcard, two requests whose route function panics (default recover handler), two requests to a service whose root path has a variable, an Accept header with an unparsable q value) of length %s on one container, plus the 1000-fold repetition of each request; the last response (status, all headers, decoded body with echoed parameters / attribute / selected route) must equal the response on a fresh container with trace off. E3 (instrumented): every pair (thorough: also triples) of Q concurrently, all schedules within the preemption bound, same oracle per request, happens-before race detection; then the free-running -race pass. Every history is non-trivial.", len(q), depth)
+	run.Cov["rule"] = fmt.Sprintf("E2: configurations {plain, 3 container + service + route filters, CORS with computed methods, OPTIONS filter, encoding with bounded(1) provider} x {CurlyRouter, RouterJSR311} x entry {Dispatch, ServeHTTP} x trace {off, on}: every sequence over the request set Q (%d requests: two GETs on one template, POST entity, 404, 405, CORS preflight, a handler that dispatches a nested request, a second template with other methods incl. its preflight and 405, a second service, a plain handler behind HandleWithFilter, an entity negotiated between XML and JSON under two Accept headers that differ only in letter case and once as XML, routes with a regular-expression variable, two custom verbs and a tail wildcard, two requests whose route function panics (default recover handler), two requests to a service whose root path has a variable, an Accept header with an unparsable q value, an entity of a custom type whose name contains a built-in one, a 406 between two sibling routes whose Produces lists share a backing array with the service default, a route that inherits that default) of length %s on one container, plus the 1000-fold repetition of each request; the last response (status, all headers, decoded body with echoed parameters / attribute / selected route) must equal the response on a fresh container with trace off. E3 (instrumented): every pair (thorough: also triples) of Q concurrently, all schedules within the preemption bound, same oracle per request, happens-before race detection; then the free-running -race pass. Every history is non-trivial.", len(q), depth)
 	run.Assume = []string{"every history starts from the same package-level state (restored between histories)", "differential: the fresh-container response is the reference; handlers also self-check that their own view does not change while they run"}
 	if f := e3Part["C19"]; f != nil {
 		f(run)
